@@ -23,8 +23,15 @@ Record tx_shape := mkTx {
   t_outputs : list output;
   t_fee : N;
   t_vkeys : N;                (* number of vkey witnesses (mock or real: 32-byte key, 64-byte signature) *)
-  t_boots : list N            (* encoded size of every bootstrap witness *)
+  t_boots : list N;           (* encoded size of every bootstrap witness *)
+  (* optional parts (absent in the transactions of theorem full_tx_size_is_encoding; tied by the correspondence run only) *)
+  t_col_inputs : list N;      (* collateral inputs (body key 13, a set): output indices *)
+  t_col_return : option output;   (* collateral return (key 16) *)
+  t_col_total : option N;     (* total collateral (key 17) *)
+  t_aux : option N            (* encoded size of the auxiliary data (4th item of the transaction; its hash is body key 7) *)
 }.
+Definition mkTx0 (ins : list N) (outs : list output) (fee vkeys : N) (boots : list N) : tx_shape :=
+  mkTx ins outs fee vkeys boots [] None None None.
 
 Definition input_size (ix : N) : N := 1 + 34 + head_size ix.
 Definition vkey_witness_size : N := 101.
@@ -38,9 +45,16 @@ Definition witness_set_size (v : N) (boots : list N) : N :=
 Definition outputs_size (outs : list output) : N := head_size (lenN outs) + sumN (map out_size outs).
 Definition inputs_size (ins : list N) : N := head_size (lenN ins) + sumN (map input_size ins).
 
+(* body keys 13 / 16 / 17 / 7 and the auxiliary data replacing the null; every key and the map head stay one byte *)
+Definition extras_size (t : tx_shape) : N :=
+  (match t_col_inputs t with [] => 0 | l => 1 + 3 + inputs_size l end)
+  + (match t_col_return t with Some o => 1 + out_size o | None => 0 end)
+  + (match t_col_total t with Some c => 1 + head_size c | None => 0 end)
+  + (match t_aux t with Some n => (1 + 34) + n - 1 | None => 0 end).
+
 Definition full_tx_size (t : tx_shape) : N :=
   3 + 7 + witness_set_size (t_vkeys t) (t_boots t) + outputs_size (t_outputs t) + head_size (t_fee t)
-  + inputs_size (t_inputs t).
+  + inputs_size (t_inputs t) + extras_size t.
 
 (* build(): the guard on the modelled size *)
 Definition build_tx_guard (cfg : config) (t : tx_shape) : result unit := build_guard cfg (full_tx_size t).
@@ -58,8 +72,8 @@ Section TxTie.
 Variable d : nat.
 
 Definition ctx_shape (x : ctx) : tx_shape :=
-  mkTx (map snd (x_inputs x)) (map (shape d) (x_outputs x)) (x_fee x) (lenN (x_vkeys x))
-       (map (fun b => len (enc BootstrapWitness b)) (x_boots x)).
+  mkTx0 (map snd (x_inputs x)) (map (shape d) (x_outputs x)) (x_fee x) (lenN (x_vkeys x))
+        (map (fun b => len (enc BootstrapWitness b)) (x_boots x)).
 
 Definition ctx_val (x : ctx) : val :=
   Batch.Denote.tx_val
@@ -95,7 +109,7 @@ Proof.
                 (map (val_output d) (x_outputs x)) (x_fee x)
                 (Batch.Denote.ws_val (map (fun w => Batch.Denote.vkeywit_val (fst w) (snd w)) (x_vkeys x)) (x_boots x))) as E.
   change (@Batch.Calc.lenN N) with len in E. rewrite E. clear E.
-  unfold full_tx_size, ctx_shape. cbn [t_inputs t_outputs t_fee t_vkeys t_boots].
+  unfold full_tx_size, extras_size, ctx_shape, mkTx0. cbn [t_inputs t_outputs t_fee t_vkeys t_boots t_col_inputs t_col_return t_col_total t_aux].
   (* constants *)
   change (Batch.Calc.get_bare_tx_size false) with 3.
   change (Batch.Calc.get_bare_tx_body_size [0; 1; 2]) with 7.
